@@ -39,7 +39,7 @@ class C02(core.Check):
                                        'const-from-const', 'label-before:instr', 'label-before:data', 'label-before:fill',
                                        'label-at-end', 'zerountil:behind-by-2+', 'zerountil:adjacent', 'zerountil:ahead',
                                        'global-redefined', 'global-redefined+origin-above-start', 'include-from:ZP', 'include-from:HI_z',
-                                       'include-from:GLOBAL', 'label-at-2**address_size', 'macro-line', 'macro-line:sub-byte-steps', 'string-behind-a-wide-data-directive']}
+                                       'include-from:GLOBAL', 'label-at-2**address_size', 'macro-line', 'macro-line:sub-byte-steps', 'string-behind-a-wide-data-directive', 'chain-nested-in-excluded-branch']}
 
     def make_case(self, g, rng, extra_tags=()):
         isa = g.isa
